@@ -9,6 +9,13 @@ inputs up to REF_MAX bytes — equality with independent positional Python refer
 ops (see lean/Driver/LshD.lean):
   tlsh <buckets> <window> <chklen> <force> <data>      tlsh.rt (same arguments: digest -> from_hash -> digest)
   tlsh.lcap <len>     tlsh.lcaprange <lo> <hi>          l_capturing with data_len set directly on the object
+  tlsh.final <buckets> <window> <chklen> <force> <l-list of 256 bucket counts> <data_len> <checksum>
+                                                        a_bucket / data_len / checksum set directly on a fresh object, then the real
+                                                        final(b'',force).digest(): the finalisation (quartiles, Q ratios, body) on
+                                                        bucket arrays chosen by the generator, not found by hashing
+  tlsh.qscan <buckets> <window> <chklen> <q3> <d|t>     the Q byte for the arrays scan_buckets(q1,q2,q3), q1=q2=0..q3 (d) / all q1<=q2<=q3 (t)
+  tlsh.qexact <lo> <hi>                                 the Q-ratio expressions AS WRITTEN in the current source of TLSH.final, evaluated on the
+                                                        real interpreter for every float pair 0<=q<=q3, lo<=q3<hi, against exact integer division
   tlsh.fromhash <buckets> <window> <chklen> <digest>
   tlsh.dist <buckets> <window> <chklen> <d1> <d2> <form oo|ob|bo|bb|all> <lvalue T/F>   -> per form `dxy;dyx;dxx`
   tlsh.ddist <buckets> <window> <chklen> <force> <m1> <m2> <lvalue>                     -> `oo;ob;bo;bb;oo(y,x);oo(x,x)`
@@ -23,13 +30,20 @@ GEN_ITEMS = ['Lsh']
 REF_MAX = 1500
 RULE = ('op lines = TLSH digests over the full grid buckets{48,128,256} x window 4..8 x checksum length {1,3} at lengths 0,1,w-1,w,48..52,254..258 '
         'with both force flags, prefixes chosen so that the populated-bucket count straddles the gate, uniform / 2..6-symbol data, random text-like and '
-        'binary data up to a few KB, invalid configurations; l_capturing enumerated densely by ranges; from_hash on arbitrary byte strings of the right and '
+        'binary data up to a few KB, invalid configurations; the finalisation on explicit object state (a_bucket / data_len / checksum set directly, then the '
+        'real final().digest()): bucket arrays constructed to have chosen quartiles — every pair (q,q3), q3<=200 (thorough 1000), whose quotient 100q/q3 is '
+        'an integer, as q1 and as q2, a seeded subset of the triples <=160, counts up to 2^20 and 2^46 with quotients at / beside an integer, both gates, '
+        'arrays of the wrong length; the Q byte scanned for ALL pairs q<=q3<=200 (thorough: 1000, and all triples q1<=q2<=q3<=160); the Q-ratio '
+        'expressions as written in the source evaluated on all float pairs q<=q3<1024 (thorough 4096) against integer division; '
+        'l_capturing enumerated densely by ranges; from_hash on arbitrary byte strings of the right and '
         'wrong lengths; distances in all object/bytes forms on random, equal, header-wrap-around and cross-configuration pairs; Nilsimsa tables for every '
         'target 0..255, digests at lengths 0..12, around the threshold steps and random; distinct lines; non-trivial = a digest / a number was returned')
 TRUSTED = ['libm log: l_capturing is an uninterpreted parameter `lcap : Nat -> Nat` in every theorem; the compiled driver instantiates it with Lean Float.log '
            '(IEEE double, same libm), compared with the real code densely over data_len by the correspondence stream (tlsh.lcaprange)',
            'quartile ratios int(q*100./q3)%16 are modelled by integer floor division (exact for bucket counts < 2^47: argument in lean/Model/Tlsh.lean); '
-           'both header nibbles are compared with the real code on every hashed input',
+           'both header nibbles are compared with the real code on every hashed input, on explicit bucket arrays covering all quartile pairs q<=q3<=200 '
+           '(thorough: <=1000 and all triples <=160) and sampled counts up to 2^46 (tlsh.final / tlsh.qscan), and the source expressions themselves are '
+           'enumerated on this interpreter over all float pairs q<=q3<1024 (thorough: <4096) against exact integer division (tlsh.qexact)',
            'Spec.Tlsh / Spec.Nilsimsa are renderings of the TLSH paper + Trend Micro reference and of nilsimsa 0.2.4; no executable reference of either exists '
            'in this image: they are validated only against the known answers in /repo/tests/test_tlsh.py and test_nilsimsa.py (corpus lines) ',
            'the Pearson table in Spec.Tlsh is a pinned snapshot (no generating rule, no independent copy offline)',
@@ -58,6 +72,79 @@ def fmt_d(f):
     return 'none' if r is None else str(int(r))
 
 
+# ---------------------------------------------------------------------------------------------
+# explicit-state finalisation (tlsh.final / tlsh.qscan / tlsh.qexact)
+def scan_buckets(b, q1, q2, q3):
+    """a quarter of the first b buckets at each of q1, q2, q3, q3+1 (order statistics exactly q1<=q2<=q3); the buckets beyond b, which
+    48/128-bucket configurations must ignore, at q3+7 (same construction as Driver.LshD.scanBuckets)"""
+    l = b // 4
+    return [q1] * l + [q2] * l + [q3] * l + [q3 + 1] * l + [q3 + 7] * (256 - 4 * l)
+
+
+def scan_pairs(q3, mode):
+    if mode == 'd': return [(q, q) for q in range(q3 + 1)]
+    if mode == 't': return [(q1, q2) for q1 in range(q3 + 1) for q2 in range(q1, q3 + 1)]
+    raise ValueError(mode)
+
+
+_QEXPR = {}
+
+
+def q_exprs(T):
+    """the right-hand sides of `self.q1_ratio = ...` / `self.q2_ratio = ...` in the CURRENT source of TLSH.final, compiled as functions of the
+    local names q1,q2,q3 (floats, as find_quartiles returns them); None if the source no longer has that shape (qexact_impl then goes through the object)"""
+    if 'f' not in _QEXPR:
+        import ast, inspect, textwrap
+        fs = {}
+        try:
+            tree = ast.parse(textwrap.dedent(inspect.getsource(T.TLSH.final)))
+            for n in ast.walk(tree):
+                if isinstance(n, ast.Assign) and len(n.targets) == 1 and isinstance(n.targets[0], ast.Attribute) and n.targets[0].attr in ('q1_ratio', 'q2_ratio'):
+                    names = {x.id for x in ast.walk(n.value) if isinstance(x, ast.Name)}
+                    if not names <= {'q1', 'q2', 'q3', 'int', 'float', 'round'}: continue
+                    lam = ast.Expression(ast.Lambda(ast.arguments(posonlyargs=[], args=[ast.arg('q1'), ast.arg('q2'), ast.arg('q3')], kwonlyargs=[], kw_defaults=[],
+                                                                  defaults=[]), n.value))
+                    ast.fix_missing_locations(lam)
+                    fs[n.targets[0].attr] = eval(compile(lam, '<TLSH.final>', 'eval'), vars(T).copy())
+        except (KeyboardInterrupt, SystemExit):
+            raise
+        except Exception as e:
+            if type(e).__name__ == '_Timeout': raise
+            fs = {}
+        _QEXPR['f'] = (fs['q1_ratio'], fs['q2_ratio']) if len(fs) == 2 else None
+    return _QEXPR['f']
+
+
+def qexact_impl(T, lo, hi):
+    fs = q_exprs(T)
+    if fs is None:
+        # the source no longer has the shape `self.q?_ratio = <expression in q1,q2,q3>`: read the ratios off the real object instead (slower)
+        def both(q, q3):
+            o = T.TLSH(48); o.a_bucket = scan_buckets(48, q, q, q3); o.data_len = 256; o.final(b'', False)
+            return o.q1_ratio, o.q2_ratio
+    else:
+        both = lambda q, q3, f1=fs[0], f2=fs[1]: (f1(float(q), float(q), float(q3)), f2(float(q), float(q), float(q3)))
+    n = 0; bad = []
+    for q3 in range(lo, hi):
+        for q in range(q3 + 1):
+            e = q * 100 // q3 % 16
+            if both(q, q3) != (e, e): bad.append('%d/%d' % (q, q3))
+        n += q3 + 1
+    return 'n=%d;bad=%s' % (n, ','.join(bad[:12]))
+
+
+def q_nibbles_fail(b, c, bk, res):
+    """the two Q nibbles of a digest against the exact rational quotients of the order statistics of bk[:b]"""
+    srt = sorted(bk[:b]); l = b // 4
+    q1, q2, q3 = srt[l - 1], srt[2 * l - 1], srt[3 * l - 1]
+    if q3 == 0: return None
+    qb = unhx(res)[c + 1]
+    e1, e2 = R.qratio(q1, q3), R.qratio(q2, q3)
+    if (qb >> 4, qb & 15) != (e1, e2):
+        return 'Q ratios in the digest = (%d,%d), exact floor(100*q/q3)%%16 = (%d,%d) for the quartiles q1=%d q2=%d q3=%d' % (qb >> 4, qb & 15, e1, e2, q1, q2, q3)
+    return None
+
+
 def run_impl(line):
     t = line.split()
     op, a = t[0], t[1:]
@@ -79,10 +166,29 @@ def run_impl(line):
                 o.data_len = l; v = o.l_capturing()
                 if v != prev: out.append('%d:%d' % (l, v)); prev = v
             return ','.join(out)
+        if op == 'tlsh.qexact': return qexact_impl(T, int(a[0]), int(a[1]))
         b, w, c = int(a[0]), int(a[1]), int(a[2])
         if op == 'tlsh':
             r = T.TLSH(b, w, c)(unhx(a[4]), unbo(a[3]))
             return 'none' if r is None else hx(r)
+        if op == 'tlsh.final':
+            o = T.TLSH(b, w, c)
+            o.a_bucket = unil(a[4]); o.data_len = int(a[5]); o.checksum = bytearray(unhx(a[6]))      # what update() leaves behind
+            if o.final(b'', unbo(a[3])) is None: return 'none'
+            return hx(o.digest().lsh_code)
+        if op == 'tlsh.qscan':
+            q3 = int(a[3]); out = []
+            T.TLSH(b, w, c)                                      # an invalid configuration is refused once, for the whole line
+            for q1, q2 in scan_pairs(q3, a[4]):
+                try:
+                    o = T.TLSH(b, w, c); o.a_bucket = scan_buckets(b, q1, q2, q3); o.data_len = 256
+                    out.append('--' if o.final(b'', False) is None else '%02x' % bytearray(o.digest().lsh_code)[c + 1])
+                except (KeyboardInterrupt, SystemExit):
+                    raise
+                except Exception as e:
+                    if type(e).__name__ == '_Timeout': raise
+                    out.append('EE')
+            return ''.join(out)
         if op == 'tlsh.rt':
             r = T.TLSH(b, w, c)(unhx(a[4]), unbo(a[3]))
             if r is None: return 'none'
@@ -141,8 +247,36 @@ def check_impl(line, res):
             v = R.lcap(l)
             if v != prev: out.append('%d:%d' % (l, v)); prev = v
         return None if res == ','.join(out) else bad('differs from the reference formula')
+    if op == 'tlsh.qexact':
+        lo, hi = int(a[0]), int(a[1])
+        exp = 'n=%d;bad=' % sum(q3 + 1 for q3 in range(lo, hi))
+        return None if res == exp else bad('the Q-ratio expression of the source differs from exact floor(100*q/q3)%%16 on float operands: %s' % res[:120])
     b, w, c = int(a[0]), int(a[1]), int(a[2])
     ok = cfg_valid(b, w, c)
+    if op == 'tlsh.final':
+        if not ok: return None if res == 'ERR' else bad('invalid configuration accepted')
+        force, bk, n, ck = unbo(a[3]), unil(a[4]), int(a[5]), unhx(a[6])
+        if len(bk) != 256 or len(ck) != c: return None           # not a state update() can leave behind: only model = code is compared
+        if res == 'ERR': return bad('exception instead of a digest or None')
+        exp = R.tlsh_encode(b, c, bk, n, ck, force)
+        if exp is None: return None if res == 'none' else bad('a digest although the reference has none (length / population gate)')
+        if res == 'none': return bad('None although the reference has a digest')
+        if len(res) != 1 + 2 * dlen(b, c): return bad('digest length is not chklen+2+buckets/4')
+        why = q_nibbles_fail(b, c, bk, res)
+        if why: return bad(why)
+        if res != hx(exp): return bad('differs from the reference encoding (%s)' % hx(exp)[:80])
+        return None
+    if op == 'tlsh.qscan':
+        if not ok: return None if res == 'ERR' else bad('invalid configuration accepted')
+        q3 = int(a[3]); l = b // 4
+        pairs = scan_pairs(q3, a[4])
+        if len(res) != 2 * len(pairs): return bad('malformed result')
+        for k, (q1, q2) in enumerate(pairs):
+            pop = l * ((q1 > 0) + (q2 > 0) + (q3 > 0) + 1)
+            exp = '--' if R.too_few(b, pop) else '%02x' % (R.qratio(q1, q3) << 4 | R.qratio(q2, q3))
+            if res[2 * k:2 * k + 2] != exp:
+                return bad('Q byte %s for quartiles q1=%d q2=%d q3=%d, exact floor(100*q/q3)%%16 gives %s' % (res[2 * k:2 * k + 2], q1, q2, q3, exp))
+        return None
     if op in ('tlsh', 'tlsh.rt'):
         if not ok: return None if res == 'ERR' else bad('invalid configuration accepted')
         force, d = unbo(a[3]), unhx(a[4])
@@ -281,6 +415,94 @@ def malformed_dist(rng):
     yield 'tlsh.dist 128 5 2 %s %s all T' % (hx(rb(36)), hx(rb(36))), 'dist.bad-config'
 
 
+def mk_buckets(rng, b, q1, q2, q3, tight=False, top=None):
+    """256 bucket counts whose first b entries have the order statistics sorted[b/4-1], [b/2-1], [3b/4-1] exactly (q1,q2,q3) (q1<=q2<=q3): a
+    quarter each drawn from [0,q1], [q1,q2], [q2,q3] (each containing its upper end at least once), a quarter >= q3; shuffled; the entries
+    beyond b (ignored by 48/128-bucket configurations) arbitrary"""
+    l = b // 4
+    pick = (lambda lo, hi: hi) if tight else (lambda lo, hi: rng.randint(lo, hi))
+    top = top if top is not None else q3 + 1 + rng.choice([0, 1, 3, q3, 1000])
+    first = [q1] + [pick(0, q1) for _ in range(l - 1)] + [q2] + [pick(q1, q2) for _ in range(l - 1)] + [q3] + [pick(q2, q3) for _ in range(l - 1)] \
+        + [rng.choice([q3, q3 + 1, rng.randint(q3, top)]) for _ in range(l)]
+    rng.shuffle(first)
+    srt = sorted(first)
+    assert (srt[l - 1], srt[2 * l - 1], srt[3 * l - 1]) == (q1, q2, q3)
+    return first + [rng.randint(0, top + 5) for _ in range(256 - b)]
+
+
+def FL(cfg, force, bk, n, ck): return L('tlsh.final', cfg, force, il(bk), str(n), hx(ck))
+
+
+def exact_qs(q3):
+    """the q <= q3 whose quotient 100*q/q3 is an integer: where a differently rounded float evaluation can flip the floor"""
+    from math import gcd
+    m = q3 // gcd(q3, 100)
+    return list(range(m, q3 + 1, m))
+
+
+def near_boundary_q(rng, q3):
+    """q <= q3 with 100*q/q3 exactly an integer, or just above / just below one"""
+    k = rng.randint(1, 100)
+    q = -(-k * q3 // 100)                      # least q with floor(100q/q3) >= k
+    return max(0, min(q3, q - rng.choice([0, 0, 1]))) if rng.random() < .7 else rng.choice(exact_qs(q3))
+
+
+def final_lines(tier, rng):
+    quick = tier == 'quick'
+    rb = lambda n: bytes(rng.getrandbits(8) for _ in range(n))
+    cfg_ = lambda: rng.choice(CFGS)
+    dl = lambda: rng.choice([256, 257, 300, 655, 656, 657, 3199, 3200, rng.randrange(256, 1 << 20)])
+    def one(tag, q1, q2, q3, **kw):
+        cfg = cfg_()
+        return FL(cfg, rng.choice('FFT'), mk_buckets(rng, cfg[0], q1, q2, q3, **kw), dl(), rb(cfg[2])), tag
+    # ---- every pair (q,q3) with an exact quotient, as q1 and as q2
+    for q3 in range(1, 201 if quick else 1001):
+        E = exact_qs(q3)
+        for i, q in enumerate(E):
+            yield one('final.exact-quotient.q1', q, rng.choice([rng.choice(E[i:]), rng.randint(q, q3)]), q3, tight=rng.random() < .5)
+            yield one('final.exact-quotient.q2', rng.choice([rng.choice(E[:i + 1]), rng.randint(0, q)]), q, q3, tight=rng.random() < .5)
+    # ---- a seeded subset of all triples q1 <= q2 <= q3 <= 160 (thorough enumerates them all through tlsh.qscan)
+    for _ in range(300 if quick else 6000):
+        q3 = rng.randint(1, 160); q2 = rng.randint(0, q3); q1 = rng.randint(0, q2)
+        yield one('final.triple<=160', q1, q2, q3)
+    # ---- large counts, quotients at / just beside an integer
+    for _ in range(150 if quick else 3000):
+        q3 = rng.choice([rng.randint(161, 4096), rng.randint(4096, 1 << 20), 1 << rng.randint(8, 20), 100 * rng.randint(2, 10000), rng.randint(1 << 20, 1 << 46)])
+        q2 = near_boundary_q(rng, q3); q1 = near_boundary_q(rng, q2) if q2 and rng.random() < .5 else min(q2, near_boundary_q(rng, q3))
+        yield one('final.large' if q3 <= 1 << 20 else 'final.large>2^20', q1, q2, q3, top=q3 + rng.choice([1, 1 << 20, 1 << 46]))
+    # ---- gates: data_len at the minimum lengths, populated buckets around the threshold; arrays update() cannot leave behind
+    for cfg in CFGS:
+        b, w, c = cfg
+        if quick and w not in (4, 8): continue
+        bk = mk_buckets(rng, b, 3, 5, 9)
+        for n in (0, 1, 49, 50, 51, 255, 256, 257):
+            for f in 'FT': yield FL(cfg, f, bk, n, rb(c)), 'final.len-gate'
+        thr = 18 if b == 48 else b // 2 + 1
+        for pop in (thr - 2, thr - 1, thr, thr + 1, b):
+            first = [rng.randint(1, 9) for _ in range(pop)] + [0] * (b - pop); rng.shuffle(first)
+            yield FL(cfg, 'F', first + [rng.randint(0, 9) for _ in range(256 - b)], 300, rb(c)), 'final.population-gate'
+        if w == 4:
+            for m in (0, 3 * (b // 4) - 1, 3 * (b // 4), b - 1, b, 255, 257):
+                if m == 256: continue
+                yield FL(cfg, 'F', [rng.randint(1, 9) for _ in range(m)], 300, rb(c)), 'final.array-length'
+                yield FL(cfg, 'F', [0] * m, 300, rb(c)), 'final.array-length'
+            yield FL(cfg, 'F', bk, 300, rb(c + 1)), 'final.checksum-length'
+            yield FL(cfg, 'F', bk, 300, b''), 'final.checksum-length'
+    for cfg in ((64, 5, 1), (128, 3, 1), (128, 5, 2)): yield FL(cfg, 'F', mk_buckets(rng, 128, 3, 5, 9), 300, rb(1)), 'final.bad-config'
+    # ---- dense: the Q byte for all pairs q <= q3 <= 200 (both nibbles), thorough all triples <= 160 and pairs <= 1000.  The ratios do not depend on
+    #      the configuration; most lines use 48 buckets because the order statistic of Spec.Tlsh is quadratic in the bucket count (driver time)
+    scfg = lambda: rng.choice([c for c in CFGS if c[0] == 48]) if rng.random() < .85 else cfg_()
+    for q3 in range(0, 201 if quick else 1001): yield L('tlsh.qscan', scfg() if q3 <= 200 else rng.choice(CFGS[:10]), str(q3), 'd'), 'qscan.all-pairs-q<=q3<=%d' % (200 if quick else 1000)
+    if not quick:
+        for q3 in range(0, 161): yield L('tlsh.qscan', cfg_() if q3 < 40 else rng.choice(CFGS[:10]), str(q3), 't'), 'qscan.all-triples-q1<=q2<=q3<=160'
+    else:
+        for q3 in rng.sample(range(1, 40), 3) + rng.sample(range(40, 161), 3): yield L('tlsh.qscan', rng.choice(CFGS[:10]), str(q3), 't'), 'qscan.triples'
+    yield 'tlsh.qscan 64 5 1 10 d', 'qscan.bad-config'
+    # ---- the float expressions of the source on every pair q <= q3 < top, on this interpreter
+    top, step = (1024, 128) if quick else (4096, 64)
+    for lo in range(0, top, step): yield 'tlsh.qexact %d %d' % (max(lo, 1), lo + step), 'qexact.all-float-pairs-q<=q3<%d' % top
+
+
 def cases(tier, rng):
     rb, tx, few = gens(rng)
     quick = tier == 'quick'
@@ -297,6 +519,10 @@ def cases(tier, rng):
             yield L('tlsh.ddist', cfg, 'T', hx(d), hx(bytes(m)), rng.choice('TF')), 'search'
             yield from dist_lines(cfg, rng, 1)
             yield L('tlsh.fromhash', cfg, hx(rb(dlen(cfg[0], cfg[2]) + rng.choice([0, 0, 0, 1, -1])))), 'search'
+            q3 = rng.choice([rng.randint(1, 200), rng.randint(1, 5000), rng.randint(1, 1 << 30)])
+            q2 = near_boundary_q(rng, q3); q1 = min(q2, near_boundary_q(rng, q3))
+            yield FL(cfg, f, mk_buckets(rng, cfg[0], q1, q2, q3), rng.randrange(256, 1 << 16), rb(cfg[2])), 'search'
+            yield L('tlsh.qscan', cfg, str(rng.randint(1, 3000)), 'd'), 'search'
             t = rng.choice([53, rng.randrange(256)])
             yield 'nilsimsa %d %s' % (t, hx(rng.choice([rb, tx])(rng.choice([rng.randrange(0, 12), rng.randrange(0, 400)])))), 'search'
             a = rb(32); bb = bytearray(a)
@@ -331,6 +557,8 @@ def cases(tier, rng):
     d = hx(tx(300))
     for cfg in ((64, 5, 1), (0, 5, 1), (512, 5, 1), (128, 3, 1), (128, 9, 1), (128, 0, 1), (128, 5, 2), (128, 5, 0), (128, 5, 4), (47, 4, 3)):
         yield L('tlsh', cfg, 'F', d), 'tlsh.bad-config'
+    # ---- finalisation on explicit state
+    yield from final_lines(tier, rng)
     # ---- l_capturing, densely (data_len set on the object)
     top = 1 << 17 if quick else 1 << 20
     for lo in range(0, top, 4096): yield 'tlsh.lcaprange %d %d' % (max(lo, 1), lo + 4096), 'lcap.dense'
@@ -387,6 +615,20 @@ def cases(tier, rng):
 
 def shrink(line):
     t = line.split()
+    if t[0] == 'tlsh.final' and len(t) == 8:
+        try:
+            b, c = int(t[1]), int(t[3]); bk = unil(t[5])
+            if b in (48, 128, 256) and len(bk) >= b:
+                srt = sorted(bk[:b]); l = b // 4
+                q1, q2, q3 = srt[l - 1], srt[2 * l - 1], srt[3 * l - 1]
+                canon = [q1] * l + [q2] * l + [q3] * l + [q3 + 1] * l + [0] * (256 - b)      # same quartiles, plain layout
+                for bk2 in (canon, [q1] * (2 * l) + [q3] * l + [q3 + 1] * l + [0] * (256 - b), [q2] * (2 * l) + [q3] * l + [q3 + 1] * l + [0] * (256 - b), bk[:b] + [0] * (256 - b)):
+                    yield ' '.join(t[:4] + ['F', il(bk2), '256', hx(bytes(c))])
+                    yield ' '.join(t[:5] + [il(bk2)] + t[6:])
+                yield ' '.join(t[:6] + ['256', t[7]])
+        except ValueError:
+            pass
+        return
     for i, tok in enumerate(t[1:], 1):
         if tok[0] == 'x' and len(tok) > 3:
             yield ' '.join(t[:i] + ['x' + tok[3:]] + t[i + 1:])
@@ -405,5 +647,5 @@ LEVEL_NOTE = ('Trusted: Lean kernel; axioms ⊆ {propext, Classical.choice, Quot
               'implementation of TLSH or Nilsimsa in this image: Spec.Tlsh/Spec.Nilsimsa (and the Python references of the predicate) rest on the paper / '
               'nilsimsa.c text and are validated only against the known answers of /repo/tests/test_tlsh.py and test_nilsimsa.py (kept in corpus/C19.ops). '
               'libm log is not modelled in theorems (parameter lcap); float quartile ratios are modelled by integer division (exactness argument in '
-              'lean/Model/Tlsh.lean). Theorem list: evidence/C19.json coverage.theorems.')
+              'lean/Model/Tlsh.lean; checked on the real interpreter densely over quartile pairs by the ops tlsh.final / tlsh.qscan / tlsh.qexact). Theorem list: evidence/C19.json coverage.theorems.')
 TECHNIQUE = 'Lean 4 proof (induction over the byte stream / kernel enumeration of complete table domains) + correspondence check'
